@@ -41,6 +41,8 @@ func VH_C17_shutdown() {
 			stopped = false
 		}
 	}
+	// Shutdown returns when every worker has stopped - or when its own time-out fired
+	zz.Assert(stopped || zz.TimeoutFired(), "shutdown_waits_for_every_worker_or_its_timeout")
 	zz.Class("wait_timed_out", !stopped)
 	if stopped {
 		zz.Yield()
